@@ -299,6 +299,12 @@ func ReplayHistory(tw *TraceWriter, id int, h []Action) {
 			fA.Anon(a.P)
 			fB.Anon(a.P)
 			tw.Emit(Rec{"ev": "Anon", "p": a.P})
+		case "Preamble":
+			// a cgo preamble block supplied later (possibly after the File was rendered)
+			fA.CgoPreamble(a.N)
+			fB.CgoPreamble(a.N)
+			predoc += StripSpace(CommentText(a.N))
+			tw.Emit(Rec{"ev": "Preamble", "node": CommentNode(a.N), "predoc": predoc})
 		case "Add":
 			Syms([]*Node{a.Tree}, syms)
 			fA.Add(prer(bA.Code(a.Tree)))
